@@ -90,6 +90,12 @@ impl Conc {
         Conc { variant, certs, addrs }
     }
 
+    /// bind an address token to a concrete address (worker legs use free local ports)
+    pub fn set_addr(&mut self, tok: &'static str, a: SocketAddr) {
+        self.addrs.retain(|(t, _)| *t != tok);
+        self.addrs.push((tok, a));
+    }
+
     // ---------------------------------------------------------------- tokens
     pub fn addr(&self, tok: &str) -> SocketAddr {
         self.addrs.iter().find(|(t, _)| *t == tok).map(|(_, a)| *a).unwrap_or_else(|| tok.parse().expect("address token"))
